@@ -21,7 +21,10 @@ def run_check(prop: str, tier: str, repo: str, seed: int, write: bool = True, re
             mod = importlib.import_module(f"tpsa.rules.{prop.lower()}")
             from .rules.lib import Ctx
 
-            mod.check(Ctx(Program(repo), rep, tier))
+            ctx_ = Ctx(Program(repo), rep, tier)
+            mod.check(ctx_)
+            from .rules.lib import r_decorated
+            r_decorated(ctx_)
             return rep.code()
         except AnalysisError as e:
             rep.notes.append(f"ANALYSIS-ERROR {e}")
@@ -36,6 +39,8 @@ def run_check(prop: str, tier: str, repo: str, seed: int, write: bool = True, re
         prog = Program(repo)
         ctx = Ctx(prog, rep, tier)
         mod.check(ctx)
+        from .rules.lib import r_decorated
+        r_decorated(ctx)
         if tier == "thorough":
             from .thorough import extras
 
